@@ -148,6 +148,19 @@ def run(ctx):
         if not ok:
             r2.violate("C14|R2|%s" % name, "%s splits the header line with %s (separator %r expected, first occurrence only): a value containing the separator is cut or the line is mis-split" % (name, [(o[0], o[1]) for o in ops], sep),
                        fn.file, (ops[0][3] if ops else fn.span["line"]), name)
+    # the name and the value are stored as written: only the line terminator is removed
+    r2t = chk.rule("R2t-header-text-kept-verbatim", "no header-line reader (private helpers inlined) applies a whitespace trim or a case conversion to the line, the name or the value: only CR / LF are deleted, so a value with leading / trailing blanks or an empty value reads back as it was written", floor=3)
+    for name in HEADER_LINE_READERS:
+        fn0 = F.fns.get(name)
+        if fn0 is None:
+            continue
+        fi = ctx.inl(fn0)
+        alters = sorted({(callee_name(t) or "").rsplit("::", 1)[-1] for _, t in fi.calls()
+                         if re.search(r"impl str>::(trim|trim_end|trim_start|trim_matches|trim_end_matches|trim_start_matches|trim_ascii|trim_ascii_end|trim_ascii_start|to_lowercase|to_uppercase|to_ascii_lowercase|to_ascii_uppercase)$", callee_name(t) or "")})
+        ok = not alters
+        r2t.instance({"reader": name, "altering_calls": alters}, ok)
+        if not ok:
+            r2t.violate("C14|R2t|%s" % name, "%s applies %s to the header text: a value that ends in a blank, or an empty value after ': ', is not read back as it was written" % (name, alters), fn0.file, fn0.span["line"], name)
     # serialisers write the same constant between name and value
     for sname in ("request::Request::_generate_request", "response::Response::generate_response", "response::Response::generate"):
         fn = F.fns.get(sname)
